@@ -210,9 +210,15 @@ PctByte(b) == <<37, HexU(b \div 16), HexU(b % 16)>>
 AlnumC(c) == (c >= 48 /\ c <= 57) \/ (c >= 65 /\ c <= 90) \/ (c >= 97 /\ c <= 122)
 UnresComp(c) == AlnumC(c) \/ c \in {45, 95, 46, 33, 126, 42, 39, 40, 41}
 UnresUri(c)  == UnresComp(c) \/ c \in {59, 47, 63, 58, 64, 38, 61, 43, 36, 44, 35}
-UrlEnc(s, comp) == SeqConcatAll([i \in 1..Len(s) |->
-                      IF (comp /\ UnresComp(s[i])) \/ (~comp /\ UnresUri(s[i])) THEN <<s[i]>>
+\* The statement fixes the round trip, not the escaping convention.  Two conventions are
+\* allowed (open choice url_form): the form-encoding one (unreserved = letters, digits, - _ . ~ ;
+\* a space is written "+", and "+" reads back as a space) and the URI-component one.
+UnresForm(c) == AlnumC(c) \/ c \in {45, 95, 46, 126}
+UrlEnc(s, form) == SeqConcatAll([i \in 1..Len(s) |->
+                      IF form /\ s[i] = 32 THEN <<43>>
+                      ELSE IF (form /\ UnresForm(s[i])) \/ (~form /\ UnresComp(s[i])) THEN <<s[i]>>
                       ELSE SeqConcatAll(SeqMap(PctByte, Utf8(s[i])))])
+PlusToSpace(s) == [i \in 1..Len(s) |-> IF s[i] = 43 THEN 32 ELSE s[i]]
 HexVal(c) == IF c >= 48 /\ c <= 57 THEN c - 48 ELSE IF c >= 65 /\ c <= 70 THEN c - 55 ELSE IF c >= 97 /\ c <= 102 THEN c - 87 ELSE 0 - 1
 \* percent-decoding to bytes; [ok, bs]
 RECURSIVE PctDecode(_)
@@ -302,10 +308,11 @@ StrCall(nm, a, md) ==
       [] nm \in {"encodeUrl", "encodeUrlComponent"} ->
            IF n # 1 THEN LArgCount ELSE IF ~S(1) THEN LArgType(1)
            ELSE IF \E i \in 1..Len(a[1].s) : a[1].s[i] = 65533 THEN LTop("U+FFFD is rejected by design")
-           ELSE LVal(Str(UrlEnc(a[1].s, nm = "encodeUrlComponent")))
+           ELSE IF nm = "encodeUrl" THEN LTop("$encodeUrl: the statement gives no law for whole-URL encoding")
+           ELSE LVal(Str(UrlEnc(a[1].s, md.url_form)))
       [] nm \in {"decodeUrl", "decodeUrlComponent"} ->
            IF n # 1 THEN LArgCount ELSE IF ~S(1) THEN LArgType(1)
-           ELSE LET D == PctDecode(a[1].s) IN
+           ELSE LET D == PctDecode(IF md.url_form THEN PlusToSpace(a[1].s) ELSE a[1].s) IN
                 IF ~D.ok THEN LErr
                 ELSE LET U == Utf8Decode(D.bs) IN IF U.ok THEN LVal(Str(U.s)) ELSE LTop("percent-decoding to non-UTF-8 bytes")
       [] OTHER -> LTop("unmodelled string function")
